@@ -19,7 +19,7 @@ def more():
     import fam_io
 
     for pid, gen in (("C04", ()), ("C12", ()), ("C13", ()), ("C15", ("Modes", "Decorators")), ("C16", ())):
-        reg[pid] = dict(family=fam_io.Family(pid), lean=[f"TinyFlux.Props.{pid}"], gen=gen, ref=f"5/{pid}",
+        reg[pid] = dict(family=fam_io.Family(pid), lean=[f"TinyFlux.Props.{pid}", f"TinyFlux.Props.{pid}EndToEnd"], gen=gen, ref=f"5/{pid}",
                         replay=fam_io.replay)
     import fam_c14
 
